@@ -38,13 +38,13 @@ theorem row_ids_inj (w : World) (h : IdxInv w) (t r t' r' : Nat) (hv : validRow 
 
 /-! ### allocate a row -/
 
-/-- push a row for entity `e` onto table `t` and point the index at it -/
-def pushRow (w : World) (t : Nat) (row : Row) : World :=
+/-- push a row onto table `t` (whose capacity becomes `cap`) and point the index at it -/
+def pushRow (w : World) (t : Nat) (row : Row) (cap : Nat := (w.tableOf t).cap) : World :=
   let tb := w.tableOf t
-  (w.setTable t { tb with rows := tb.rows.push row }).setIndex row.ent.id (some ⟨t, tb.rows.size⟩)
+  (w.setTable t { tb with rows := tb.rows.push row, cap := cap }).setIndex row.ent.id (some ⟨t, tb.rows.size⟩)
 
-theorem rowAt_pushRow (w : World) (t : Nat) (row : Row) (ht : t < w.tables.size) (t' r' : Nat) :
-    rowAt (pushRow w t row) t' r' = if t' = t ∧ r' = (w.tableOf t).rows.size then row else rowAt w t' r' := by
+theorem rowAt_pushRow (w : World) (t : Nat) (row : Row) (cap : Nat) (ht : t < w.tables.size) (t' r' : Nat) :
+    rowAt (pushRow w t row cap) t' r' = if t' = t ∧ r' = (w.tableOf t).rows.size then row else rowAt w t' r' := by
   unfold pushRow rowAt
   simp only [tableOf_setIndex]
   by_cases e : t' = t
@@ -55,29 +55,29 @@ theorem rowAt_pushRow (w : World) (t : Nat) (row : Row) (ht : t < w.tables.size)
   · rw [tableOf_setTable_ne _ _ _ _ (fun x => e x.symm)]
     simp [e]
 
-theorem size_pushRow (w : World) (t : Nat) (row : Row) (ht : t < w.tables.size) (t' : Nat) :
-    ((pushRow w t row).tableOf t').rows.size = if t' = t then (w.tableOf t).rows.size + 1 else (w.tableOf t').rows.size := by
+theorem size_pushRow (w : World) (t : Nat) (row : Row) (cap : Nat) (ht : t < w.tables.size) (t' : Nat) :
+    ((pushRow w t row cap).tableOf t').rows.size = if t' = t then (w.tableOf t).rows.size + 1 else (w.tableOf t').rows.size := by
   unfold pushRow
   simp only [tableOf_setIndex]
   by_cases e : t' = t
   · subst e; rw [tableOf_setTable_eq _ _ _ ht]; simp
   · rw [tableOf_setTable_ne _ _ _ _ (fun x => e x.symm)]; simp [e]
 
-theorem tableIds_pushRow (w : World) (t : Nat) (row : Row) (ht : t < w.tables.size) (t' : Nat) :
-    (pushRow w t row).tableIds t' = w.tableIds t' := by
+theorem tableIds_pushRow (w : World) (t : Nat) (row : Row) (cap : Nat) (ht : t < w.tables.size) (t' : Nat) :
+    (pushRow w t row cap).tableIds t' = w.tableIds t' := by
   unfold pushRow
   show ((w.setTable t _).setIndex _ _).tableIds t' = _
   unfold tableIds nodeOfTable
   simp only [tableOf_setIndex, nodeOf_setIndex]
-  have := tableIds_setTable w t t' { w.tableOf t with rows := (w.tableOf t).rows.push row } rfl ht
+  have := tableIds_setTable w t t' { w.tableOf t with rows := (w.tableOf t).rows.push row, cap := cap } rfl ht
   unfold tableIds nodeOfTable at this
   exact this
 
-theorem pushRow_inv (w : World) (h : IdxInv w) (t : Nat) (row : Row) (ht : t < w.tables.size)
+theorem pushRow_inv (w : World) (h : IdxInv w) (t : Nat) (row : Row) (cap : Nat) (ht : t < w.tables.size)
     (hid : row.ent.id < w.index.size) (hfree : loc w row.ent.id = none)
-    (hw : row.vals.length = (w.tableIds t).length) : IdxInv (pushRow w t row) := by
-  have hsz : (pushRow w t row).tables.size = w.tables.size := by unfold pushRow; simp [setIndex]
-  have hloc : ∀ j, loc (pushRow w t row) j = if row.ent.id = j then some ⟨t, (w.tableOf t).rows.size⟩ else loc w j := by
+    (hw : row.vals.length = (w.tableIds t).length) : IdxInv (pushRow w t row cap) := by
+  have hsz : (pushRow w t row cap).tables.size = w.tables.size := by unfold pushRow; simp [setIndex]
+  have hloc : ∀ j, loc (pushRow w t row cap) j = if row.ent.id = j then some ⟨t, (w.tableOf t).rows.size⟩ else loc w j := by
     intro j
     unfold pushRow
     simp only []
@@ -88,7 +88,7 @@ theorem pushRow_inv (w : World) (h : IdxInv w) (t : Nat) (row : Row) (ht : t < w
   · intro id l hl
     rw [hloc] at hl
     unfold validRow
-    rw [hsz, size_pushRow _ _ _ ht, rowAt_pushRow _ _ _ ht]
+    rw [hsz, size_pushRow _ _ _ _ ht, rowAt_pushRow _ _ _ _ ht]
     by_cases e : row.ent.id = id
     · simp only [e, ↓reduceIte, Option.some.injEq] at hl
       subst hl
@@ -105,8 +105,8 @@ theorem pushRow_inv (w : World) (h : IdxInv w) (t : Nat) (row : Row) (ht : t < w
       simp only [this, ↓reduceIte]; exact h3
   · intro t' r' ⟨h1, h2⟩
     rw [hsz] at h1
-    rw [size_pushRow _ _ _ ht] at h2
-    rw [rowAt_pushRow _ _ _ ht, hloc]
+    rw [size_pushRow _ _ _ _ ht] at h2
+    rw [rowAt_pushRow _ _ _ _ ht, hloc]
     by_cases e : t' = t ∧ r' = (w.tableOf t).rows.size
     · simp only [e, and_self, ↓reduceIte]
     · simp only [e, ↓reduceIte]
@@ -123,8 +123,8 @@ theorem pushRow_inv (w : World) (h : IdxInv w) (t : Nat) (row : Row) (ht : t < w
       simp only [this, ↓reduceIte]; exact hb
   · intro t' r' ⟨h1, h2⟩
     rw [hsz] at h1
-    rw [size_pushRow _ _ _ ht] at h2
-    rw [rowAt_pushRow _ _ _ ht, tableIds_pushRow _ _ _ ht]
+    rw [size_pushRow _ _ _ _ ht] at h2
+    rw [rowAt_pushRow _ _ _ _ ht, tableIds_pushRow _ _ _ _ ht]
     by_cases e : t' = t ∧ r' = (w.tableOf t).rows.size
     · simp only [e, and_self, ↓reduceIte]; first | exact hw | (rw [e.1]; exact hw)
     · simp only [e, ↓reduceIte]
@@ -137,14 +137,14 @@ theorem pushRow_inv (w : World) (h : IdxInv w) (t : Nat) (row : Row) (ht : t < w
       · simpa [e1] using h2
 
 /-- other entities see exactly the rows they saw before -/
-theorem pushRow_frame (w : World) (t : Nat) (row : Row) (ht : t < w.tables.size) (hid : row.ent.id < w.index.size)
+theorem pushRow_frame (w : World) (t : Nat) (row : Row) (cap : Nat) (ht : t < w.tables.size) (hid : row.ent.id < w.index.size)
     (h : IdxInv w) (id : Nat) (hne : id ≠ row.ent.id) (l : Loc) (hl : loc w id = some l) :
-    loc (pushRow w t row) id = some l ∧ rowAt (pushRow w t row) l.tbl l.row = rowAt w l.tbl l.row := by
-  have h1 : loc (pushRow w t row) id = some l := by
+    loc (pushRow w t row cap) id = some l ∧ rowAt (pushRow w t row cap) l.tbl l.row = rowAt w l.tbl l.row := by
+  have h1 : loc (pushRow w t row cap) id = some l := by
     unfold pushRow; simp only []
     rw [loc_setIndex, if_neg (fun x => hne x.1.symm)]; exact hl
   refine ⟨h1, ?_⟩
-  rw [rowAt_pushRow _ _ _ ht]
+  rw [rowAt_pushRow _ _ _ _ ht]
   have hv := (h.fwd id l hl).1
   have : ¬ (l.tbl = t ∧ l.row = (w.tableOf t).rows.size) := by
     intro ⟨a, b⟩; have := hv.2; rw [a] at this; omega
